@@ -89,6 +89,19 @@ def summarize_crash(stderr, rc):
     return "exit %d" % rc
 
 
+_RUN_DIR = None
+
+
+def run_dir():
+    global _RUN_DIR
+    if _RUN_DIR is None:
+        import atexit, shutil, tempfile
+        os.makedirs(os.path.join(B.CACHE, "run"), exist_ok=True)
+        _RUN_DIR = tempfile.mkdtemp(prefix="r%d-" % os.getpid(), dir=os.path.join(B.CACHE, "run"))
+        atexit.register(lambda: shutil.rmtree(_RUN_DIR, ignore_errors=True))
+    return _RUN_DIR
+
+
 def run_lines(argv, lines, timeout_per_batch=600, per_case_timeout=20, env=None, cwd=None):
     """Feed `lines` to a line-protocol process; isolate crashes and hangs.  Returns list[str]."""
     results = [None] * len(lines)
@@ -98,6 +111,12 @@ def run_lines(argv, lines, timeout_per_batch=600, per_case_timeout=20, env=None,
     environ.setdefault("UBSAN_OPTIONS", "print_stacktrace=1:halt_on_error=1")
     if env:
         environ.update(env)
+    # harnesses run in a private scratch directory (fix8's loggers create and ROTATE files in the
+    # cwd / at the configured path); it is removed when the check ends
+    rd = run_dir()
+    environ.setdefault("VERIF_RUN_DIR", rd)
+    if cwd is None:
+        cwd = rd
     def once(batch, to):
         inp = ("\n".join(batch) + "\n").encode()
         try:
